@@ -142,6 +142,14 @@ class Lifecycle(Unit):
         I.override(raw(Connection, 'write_packet'), lambda I_, conn, p, force=False: unit.log.append('write_packet'),
                    kind='contract')
         I.override(raw(Connection, '_pop_packet'), lambda I_, conn: unit.log.append('_pop_packet') and False, kind='contract')
+        real_check = raw(Connection, '_check_connection')
+
+        def checked(I_, conn):
+            # check-then-act must be atomic: the activity check runs with the write lock held
+            I_.E.check('refusal.check-under-lock', conn._write_lock.depth >= 1,
+                       note='_check_connection is called with the write lock held (otherwise a concurrent connect can pass it too)')
+            return I_.call_function(real_check, [conn], {})
+        I.override(real_check, checked, kind='contract')
 
     def run(self, I):
         E = I.E
